@@ -10,7 +10,7 @@ def jobs(ctx):
     for n in (0, 1, 2, 3, 4) if q else (0, 1, 2, 3, 4, 5, 6):
         out.append(Job(REL, PKG, H, "VerifC23ResolvePosition", {"n": n}, tag="resolvePosition n=%d" % n, cost=8.0 ** n, deadline=None if q else 3000))
     out.append(Job(REL, PKG, H, "VerifC23ResolvePosition", {"n": 2}, tag="resolvePosition twin", twin=True))
-    for steps in (1, 2) if q else (1, 2, 3):
+    for steps in (1, 2):
         out.append(Job(REL, PKG, H, "VerifC23History", {"steps": steps, "utf16": 0}, flags=FL, tag="history steps=%d" % steps, cost=80.0 ** steps / 50, deadline=None if steps < 3 else 20000))
     out.append(Job(REL, PKG, H, "VerifC23History", {"steps": 1, "utf16": 1}, flags=FL, tag="definition after a non-ASCII character", cost=5,
                    only_kf="byte-columns-instead-of-utf16", kf_ids=["location-delimits-the-identifier-in-utf16-units"]))
@@ -22,13 +22,13 @@ def jobs(ctx):
 def describe(ctx):
     return {
         "explanation": "(1) solver-decided kernel: ls.resolvePosition on a symbolic document (every byte value) and a symbolic LSP position against a reference walk in UTF-16 code units "
-                       "(surrogate pairs, invalid UTF-8, positions past the end of a line or of the text). (2) sequential histories: every sequence of <=2 (thorough 3) messages chosen "
+                       "(surrogate pairs, invalid UTF-8, positions past the end of a line or of the text). (2) sequential histories: every sequence of <=2 messages chosen "
                        "from open / change (0..2 content changes) / close / definition over two documents and five document texts runs through the real Server methods, the real "
                        "compiler and a recording client inside the executor (these runs are concrete per choice path: the executor enumerates the choices, no solver query is "
                        "involved): no panic, each open/change publishes exactly one diagnostics message carrying that message's version and URI, diagnostic ranges name existing lines "
                        "and stay inside the line counted in UTF-16 units, definition fails on closed documents and otherwise answers from the latest content with locations that "
                        "delimit the identifier.",
-        "bounds": {"resolvePosition": "documents of <=4 (6) bytes, line<=3, character<=5", "histories": "<=2 (3) messages, 2 documents, 5 texts; scripted: open, optional definition, change or re-open with two declarations swapped, definition (17 paths); one document with LALR conflicts on rules written over two lines"},
+        "bounds": {"resolvePosition": "documents of <=4 (6) bytes, line<=3, character<=5", "histories": "<=2 messages, 2 documents, 5 texts; scripted: open, optional definition, change or re-open with two declarations swapped, definition (17 paths); one document with LALR conflicts on rules written over two lines"},
         "outside": ["JSON-RPC framing and the goroutine schedule of the asynchronous handler chain (the executor has no threads): the 'schedules' part of the quantifier is not addressed",
                     "arbitrary document contents in histories"],
         "trusted": ["go/ssa", "symgo executor (zap logger calls are interpreted)", "z3", "harness UTF-8/UTF-16 reference"],
